@@ -9,3 +9,4 @@ pub mod conv;
 pub mod astjson;
 pub mod obs;
 pub mod worker;
+pub mod dump;
